@@ -1,6 +1,7 @@
 SPEC_PART = dict(
     props_file="C18_freq",
-    legs=[dict(family="freq", focus="size", oracles=["prop_layout"], profiles=["debug"], n_quick=10, n_thorough=24)],
+    legs=[dict(family="freq", focus="size", oracles=["prop_layout"], profiles=["debug"], n_quick=10, n_thorough=24,
+               panic_is_violation=True)],
     trusted=[],
     assumptions=[],
     covers="freq: active items <= current capacity <= maximum_map_capacity after every operation of every history (C07's capacity "
